@@ -199,7 +199,8 @@ fn finding_ops(ops: &[Op], msg: &str) -> Finding {
 
 // ------------------------------------------------------------------ inline images
 
-fn inline_image_bytes(r: &mut Rng) -> (Vec<u8>, usize) {
+/// returns (content bytes, number of operations, the image's sample data)
+fn inline_image_bytes(r: &mut Rng) -> (Vec<u8>, usize, Vec<u8>) {
     let (cs_names, ncol): (&[&str], usize) = *r.pick(&[
         (&["DeviceGray", "G"][..], 1usize),
         (&["DeviceRGB", "RGB"][..], 3),
@@ -254,37 +255,55 @@ fn inline_image_bytes(r: &mut Rng) -> (Vec<u8>, usize) {
         out.extend_from_slice(b"Q\n(after) Tj");
         nops += 2;
     }
-    (out, nops)
+    (out, nops, data)
 }
 
 fn content_to_model(c: &Content<Vec<Operation>>) -> Vec<Op> {
     c.operations.iter().map(|o| Op { operator: o.operator.clone(), operands: o.operands.iter().map(from_lo).collect() }).collect()
 }
 
-/// decode(encode(decode(bytes))) == decode(bytes); None = held or not applicable (first decode failed)
-fn check_inline(bytes: &[u8], expect_ops: usize, out: &mut ShardOut) -> Option<String> {
+/// decode(encode(decode(bytes))) == decode(bytes); None = held or not applicable.
+/// `data`: the sample data of the (valid) image. When it does not start with a white-space byte the parser's
+/// separator rule after ID cannot touch it, so the first decode has to succeed and return exactly these bytes -
+/// otherwise there are no "same operations" to come back to. Data starting with white-space is outside the clause
+/// (counted): the parser consumes every white-space byte after ID.
+fn check_inline(bytes: &[u8], expect_ops: usize, data: Option<&[u8]>, out: &mut ShardOut) -> Option<(&'static str, String)> {
+    let strict = data.filter(|d| d.first().map_or(true, |b| !b" \t\r\n\x0c\0".contains(b)));
     let d1 = match Content::decode(bytes) {
         Ok(d) => d,
-        Err(_) => {
+        Err(e) => {
+            if let Some(d) = strict {
+                return Some(("decode", format!("valid inline image ({} data bytes) does not decode: {:?}", d.len(), e)));
+            }
             out.count("inline_first_decode_failed");
             return None;
         }
     };
     if d1.operations.len() != expect_ops || !d1.operations.iter().any(|o| o.operator == "BI") {
-        // the first decode did not see the image as an image (e.g. data starting with
+        if strict.is_some() {
+            return Some(("decode", format!("valid inline image decodes to {} operations ({:?}), the content has {}", d1.operations.len(), d1.operations.iter().map(|o| o.operator.clone()).collect::<Vec<_>>(), expect_ops)));
+        }
+        // the first decode did not see the image as an image (data starting with
         // white-space is eaten by the parser's separator rule): outside this clause
         out.count("inline_first_decode_not_an_image");
         return None;
+    }
+    if let Some(d) = strict {
+        let got = d1.operations.iter().find(|o| o.operator == "BI").and_then(|o| o.operands.iter().find_map(|x| x.as_stream().ok())).map(|s| s.content.clone());
+        if got.as_deref() != Some(d) {
+            return Some(("decode", format!("decoded inline image data differs from the {} bytes between ID and EI (got {:?} bytes)", d.len(), got.map(|g| g.len()))));
+        }
+        out.count("inline_images_data_verified");
     }
     out.count("inline_images_decoded");
     let m1 = content_to_model(&d1);
     let b2 = match d1.encode() {
         Ok(b) => b,
-        Err(e) => return Some(format!("encode of decoded inline image failed: {}", e)),
+        Err(e) => return Some(("reencode", format!("encode of decoded inline image failed: {}", e))),
     };
     match Content::decode(&b2) {
-        Ok(d2) => diff_ops(&m1, &d2),
-        Err(e) => Some(format!("re-encoded inline image does not decode: {:?}", e)),
+        Ok(d2) => diff_ops(&m1, &d2).map(|m| ("reencode", m)),
+        Err(e) => Some(("reencode", format!("re-encoded inline image does not decode: {:?}", e))),
     }
 }
 
@@ -331,18 +350,18 @@ pub fn run(cfg: &RunCfg) -> (PropMeta, ShardOut, Map<String, Value>) {
         }
         for i in 0..per_img {
             let mut r = Rng::for_case(cfg.seed, "C14img", shard as u64, i as u64);
-            let (bytes, nops) = inline_image_bytes(&mut r);
+            let (bytes, nops, data) = inline_image_bytes(&mut r);
             out.evaluations += 1;
             let before = *out.counters.get("inline_images_decoded").unwrap_or(&0);
-            let res = check_inline(&bytes, nops, &mut out);
+            let res = check_inline(&bytes, nops, Some(&data), &mut out);
             if *out.counters.get("inline_images_decoded").unwrap_or(&0) > before {
                 out.digests.insert(crate::prng::fnv_bytes(&bytes));
             }
-            if let Some(msg) = res {
+            if let Some((kind, msg)) = res {
                 out.finding(Finding {
-                    signature: "C14/inline-image/reencode".into(),
-                    what: format!("decode(encode(decode(bytes))) != decode(bytes): {}", msg),
-                    witness: json!({"kind":"inline","bytes":hex(&bytes),"ops":nops,"text":String::from_utf8_lossy(&bytes)}),
+                    signature: format!("C14/inline-image/{}", kind),
+                    what: if kind == "reencode" { format!("decode(encode(decode(bytes))) != decode(bytes): {}", msg) } else { msg },
+                    witness: json!({"kind":"inline","bytes":hex(&bytes),"ops":nops,"data":hex(&data),"text":String::from_utf8_lossy(&bytes)}),
                 });
             }
             if i == 0 {
@@ -353,11 +372,11 @@ pub fn run(cfg: &RunCfg) -> (PropMeta, ShardOut, Map<String, Value>) {
     });
     let meta = PropMeta {
         level: "exploration",
-        rule: "random operation sequences (PDF operator table + random tokens over letters * ' \"; 0..8 operands of every direct kind, nesting<=5, hostile bytes) through Content::encode -> Content::decode; all 65,536 byte pairs as literal string, hex string, name and dictionary key; generated inline images (Gray/RGB/CMYK/RGBA, BPC 1..16, 1..16 x 1..16, data containing EI) through decode -> encode -> decode. Non-trivial: at least one operation / the first decode recognised the image; distinct by canonical printing.".into(),
+        rule: "random operation sequences (PDF operator table + random tokens over letters * ' \"; 0..8 operands of every direct kind, nesting<=5, hostile bytes) through Content::encode -> Content::decode; all 65,536 byte pairs as literal string, hex string, name and dictionary key; generated inline images (Gray/RGB/CMYK/RGBA, BPC 1..16, 1..16 x 1..16 so rows with and without padding bits, data containing EI) through decode -> encode -> decode; when the sample data does not start with white-space the first decode must succeed and return exactly the bytes between ID and EI. Non-trivial: at least one operation / the first decode recognised the image; distinct by canonical printing.".into(),
         assumptions: vec![
             "operator tokens that are or begin with true/false/null/BI are operand keywords or the inline-image introducer, not operators (outside the quantifier)".into(),
             "operands are direct objects: no references, no streams (except the parser's own inline-image stream)".into(),
-            "inline images whose first decode fails or does not yield a BI operation (e.g. data starting with white-space, which the parser's separator rule consumes) are outside the second clause; counted in counters".into(),
+            "inline images whose sample data starts with a white-space byte (the parser's separator rule after ID consumes it) are outside the second clause when their first decode fails or does not yield a BI operation; counted in counters".into(),
         ],
         exhaustive: false,
         min_distinct: 100,
@@ -377,8 +396,9 @@ pub fn replay(w: &Value) -> Vec<Finding> {
             let bytes = unhex(w.get("bytes").and_then(|b| b.as_str()).unwrap_or(""));
             let nops = w.get("ops").and_then(|n| n.as_u64()).unwrap_or(1) as usize;
             let mut o = ShardOut::default();
-            check_inline(&bytes, nops, &mut o)
-                .map(|m| Finding { signature: "C14/inline-image/reencode".into(), what: m, witness: w.clone() })
+            let data = w.get("data").and_then(|b| b.as_str()).map(unhex);
+            check_inline(&bytes, nops, data.as_deref(), &mut o)
+                .map(|(k, m)| Finding { signature: format!("C14/inline-image/{}", k), what: m, witness: w.clone() })
                 .into_iter()
                 .collect()
         }
